@@ -180,7 +180,14 @@ def pickSize (bitsizes : List Int) (min prefer max : Int) : Int :=
     if min > good then bitsizes.getLastD 0 else good
   else good
 
-def sortedKeys (d : PackDict) : List Nat := (d.map (·.1)).mergeSort (fun a b => a ≤ b)
+/-- insertion sort (`sorted(...)` on the dict's integer keys) -/
+def insertSorted (a : Nat) : List Nat → List Nat
+  | [] => [a]
+  | b :: l => if a ≤ b then a :: b :: l else b :: insertSorted a l
+
+def sortNat (l : List Nat) : List Nat := l.foldr insertSorted []
+
+def sortedKeys (d : PackDict) : List Nat := sortNat (d.map (·.1))
 
 def dictGet (d : PackDict) (k : Int) : Option (List Group) :=
   (d.find? fun e => (e.1 : Int) = k).map (·.2)
